@@ -168,6 +168,7 @@ theorem inv_step (st : St) (op : Op) (h : Inv st) (hg : Guard st op) : Inv (step
   | finish i ab => exact inv_finish h i ab
   | cleanupDone n => exact inv_cleanupDone h n
   | restart => exact h.setActive false
+  | wipe => exact inv_wipe h
 
 /-- Every state reachable by a guarded history satisfies the invariant. -/
 theorem inv_runOps (ops : List Op) (st : St) (h : Inv st) (hg : Guarded st ops) : Inv (runOps st ops) := by
@@ -327,6 +328,7 @@ theorem C13_no_restart_partial (st : St) (op : Op) (h : Inv st) (hg : Guard st o
       · exact hr'
   | cleanupDone n => simp only [step, cleanupDone] at hr'; split at hr' <;> exact hr'
   | restart => exact hr'
+  | wipe => simp [step, wipe] at hr'
 
 /-- **C13 (keep), partial.**  A handler call (`created`, `modified`, `deleted` event, including the
     resynchronisation a ready event triggers) leaves a running container whose cached generation
@@ -445,11 +447,15 @@ def demoOps : List Op :=
     .fsDelete 1, .evDeleted (.inst 1),
     .fsCreate 0 3 true, .evCreated (.inst 0) [] [],    -- instance 0 placed again
     .restart,
-    .evCreated .ready [⟨2, 2⟩, ⟨0, 3⟩] [0, 2] ]        -- resync: both kept
+    .evCreated .ready [⟨2, 2⟩, ⟨0, 3⟩] [0, 2],         -- resync: both kept
+    .flag 2 .oom,
+    .wipe,                                             -- node restart: all links cleared
+    .evCreated .ready [⟨0, 3⟩, ⟨2, 2⟩] [2, 0] ]        -- resync: 0 relinked, 2 (oom) to cleanup
 
 example : Guarded St.init demoOps := by decide
-example : (runOps St.init demoOps).running = [(0, ⟨0, 3⟩), (2, ⟨2, 2⟩)] ∧
-    (runOps St.init demoOps).cleanup = [] := by decide
+example : (runOps St.init demoOps).running = [(0, ⟨0, 3⟩)] ∧
+    (runOps St.init demoOps).cleanup = [(.inst 2, ⟨2, 2⟩)] ∧
+    (runOps St.init (demoOps.take 17)).running = [(0, ⟨0, 3⟩), (2, ⟨2, 2⟩)] := by decide
 
 /-- The hypotheses of C13_sync/C13_handoff/C13_keep hold at the second resynchronisation of the
     demo, with a running container to hand off, one in cleanup and a new manifest. -/
